@@ -567,6 +567,7 @@ struct WorkerOut {
     lookups_checked: u64,
     fired: BTreeMap<String, u64>,
     enumerated_fault_points: u64,
+    enumerated_dup_positions: u64,
     exhaustive_strings: u64,
     nontrivial_hashes: Vec<u64>,
     violations: Vec<serde_json::Value>,
@@ -661,6 +662,73 @@ pub fn worker(a: &Args) -> i32 {
                         out.samples.push(serde_json::json!({"file_index": fi, "scenario": sc}));
                     }
                     absorb(&mut out, sc, &st, &viol, a, None, &replay_dir, &format!("enum-{fi}-{si}"));
+                    if out.violations.len() >= max_viol {
+                        break;
+                    }
+                }
+                if out.violations.len() >= max_viol {
+                    break;
+                }
+            }
+        }
+        // every position of a single duplicate in files of growing size: the p-th name (or
+        // category) repeats an earlier one, for every p. Data-structure thresholds in duplicate
+        // detection (small-set optimisations, spills, rehashes) sit at particular positions.
+        "enum-dups" => {
+            let sizes: Vec<usize> = if runs >= 1000 { vec![3, 9, 17, 33, 40, 65, 100, 129, 200, 300, 520, 1030] } else { vec![3, 9, 17, 33, 40, 65, 100, 129] };
+            let mut k = 0u64;
+            for (zi, &n) in sizes.iter().enumerate() {
+                for variant in 0..4u64 {
+                    // variant: 0 names one per line, 1 names as synonyms (several per line), 2 categories, 3 mixed
+                    for p in 1..n {
+                        k += 1;
+                        if k % workers != worker {
+                            continue;
+                        }
+                        let mut r = Rng::new(mix3(seed, 0xD0B5 + variant, (zi * 100_000 + p) as u64));
+                        let q = r.below(p);
+                        let name = |i: usize| if i == p { format!("n{q}") } else { format!("n{i}") };
+                        let mut text = String::new();
+                        match variant {
+                            2 => {
+                                for i in 0..n {
+                                    text.push_str(&format!("[{}]\n", name(i)));
+                                }
+                            }
+                            _ => {
+                                text.push_str("[c0]\n");
+                                let mut i = 0;
+                                let mut cat = 0;
+                                while i < n {
+                                    let per_line = match variant { 0 => 1, 1 => 1 + r.below(6), _ => 1 + r.below(3) };
+                                    let mut line = Vec::new();
+                                    for _ in 0..per_line {
+                                        if i < n {
+                                            line.push(name(i));
+                                            i += 1;
+                                        }
+                                    }
+                                    text.push_str(&line.join("|"));
+                                    text.push('\n');
+                                    if variant == 3 && r.chance(1, 5) {
+                                        cat += 1;
+                                        text.push_str(&format!("[c{cat}]\n"));
+                                    }
+                                }
+                            }
+                        }
+                        let sc = AisleScenario { text, hash_seed: k, ops_a: vec![], ops_b: vec![], other_text: None, ops_c: vec![], order: vec![] };
+                        let (viol, st) = execute(&sc);
+                        out.runs += 1;
+                        out.enumerated_dup_positions += 1;
+                        if out.samples.is_empty() && n == 9 && p == 5 {
+                            out.samples.push(serde_json::json!({"size": n, "duplicate_at": p, "of": q, "variant": variant, "scenario": &sc}));
+                        }
+                        absorb(&mut out, &sc, &st, &viol, a, None, &replay_dir, &format!("dup-{n}-{variant}-{p}"));
+                        if out.violations.len() >= max_viol {
+                            break;
+                        }
+                    }
                     if out.violations.len() >= max_viol {
                         break;
                     }
